@@ -203,6 +203,11 @@ func runC05(c *Ctx) {
 			add("targeted", []byte(t))
 		}
 	})
+	if c.Quick() {
+		parserModelCases(c, items, 8000)
+	} else {
+		parserModelCases(c, items, 80000)
+	}
 	nw := 16
 	built := make([][]mdT, nw)
 	for w := 0; w < nw; w++ {
